@@ -272,6 +272,15 @@ func genTS(rng *hx.Rng) []string {
 		ops = append(ops, "ts keys var")
 	}
 	n := rng.Range(8, 24)
+	// point reads / deletes prefer keys that were set before (a uniformly drawn key is absent most of the time)
+	var setKeys []string
+	pickKey := func() string {
+		if len(setKeys) > 0 && rng.Chance(3, 5) {
+			return hx.Pick(rng, setKeys)
+		}
+
+		return hx.Pick(rng, keys)
+	}
 	for i := 0; i < n; i++ {
 		switch x := rng.Intn(110); {
 		case x >= 107:
@@ -282,13 +291,15 @@ func genTS(rng *hx.Rng) []string {
 			ops = append(ops, fmt.Sprintf("ts iterk %s %s %d %s", hx.Pick(rng, []string{"-", "-", "00", "01", "0001", "02"}),
 				hx.Pick(rng, []string{"fwd", "bwd"}), rng.Intn(5), genTSFaults(rng, true)))
 		case x < 30:
-			ops = append(ops, fmt.Sprintf("ts set %s %s %s", hx.Pick(rng, keys), hx.Pick(rng, vals), genTSFaults(rng, false)))
+			k := hx.Pick(rng, keys)
+			setKeys = append(setKeys, k)
+			ops = append(ops, fmt.Sprintf("ts set %s %s %s", k, hx.Pick(rng, vals), genTSFaults(rng, false)))
 		case x < 42:
-			ops = append(ops, fmt.Sprintf("ts get %s %s", hx.Pick(rng, keys), genTSFaults(rng, false)))
+			ops = append(ops, fmt.Sprintf("ts get %s %s", pickKey(), genTSFaults(rng, false)))
 		case x < 50:
-			ops = append(ops, fmt.Sprintf("ts has %s %s", hx.Pick(rng, keys), genTSFaults(rng, false)))
+			ops = append(ops, fmt.Sprintf("ts has %s %s", pickKey(), genTSFaults(rng, false)))
 		case x < 60:
-			ops = append(ops, fmt.Sprintf("ts del %s %s", hx.Pick(rng, keys), genTSFaults(rng, false)))
+			ops = append(ops, fmt.Sprintf("ts del %s %s", pickKey(), genTSFaults(rng, false)))
 		case x < 68:
 			ops = append(ops, fmt.Sprintf("ts rawset %s %s", hx.Pick(rng, rawKeys), hx.Pick(rng, rawVals)))
 		case x < 72:
